@@ -74,6 +74,18 @@ def single_mutations(slices):
             if len(tok) > 1 and tok[:1] not in "\"'":
                 yield "invisible-char", (i, "inside", ch), J(slices[:i] + [tok[: len(tok) // 2] + ch + tok[len(tok) // 2:]] + slices[i + 1:])
     yield "invisible-char", (0, "leading", "\ufeff"), "\ufeff" + J(slices)
+    # a comment (not white space) between the two words of `not in` / `else if`: two tokens, no longer the keyword
+    for i in range(n):
+        words = slices[i].split()
+        if len(words) == 2 and words[0] in ("not", "else"):
+            for sep in (" /* x */ ", "/**/", " // x\n ", " /* a */ /* b */ "):
+                yield "comment-in-two-word-keyword", (i, sep), J(slices[:i] + [words[0] + sep + words[1]] + slices[i + 1:])
+    # a line break inside a string literal
+    for i in range(n):
+        tok = slices[i]
+        if tok[:1] in "\"'" and len(tok) >= 3:
+            yield "newline-in-string", i, J(slices[:i] + [tok[:1] + tok[1:-1][:1] + "\n" + tok[1:-1][1:] + tok[-1:]] + slices[i + 1:])
+            yield "newline-in-string", i, J(slices[:i] + [tok[:-1] + "\n" + tok[-1:]] + slices[i + 1:])
     for p in PREFIX_JUNK:
         yield "prefix-junk", p, p + " " + J(slices)
     for s in SUFFIX_JUNK:
